@@ -783,13 +783,14 @@ Example counter_example :
         36;115;113;108;51;32;61;32;34;99;34;59].
 Proof. vm_compute. reflexivity. Qed.
 
-(* non-vacuity of output_adds_no_exception: an option set under which format() raises, with and
-   without output_format:  format('(as)', strip_whitespace=True[, output_format='php']) -> IndexError *)
+(* output_adds_no_exception had a non-vacuity example until the fix of finding C07-RX-1:
+   format('(as)', strip_whitespace=True[, output_format='php']) raised IndexError with and without output_format.
+   No input on which this option slice raises is known any more; the same input now returns, with and without. *)
 Definition opts_sw (f : option ofmt) : fopts :=
   {| f_kw := None; f_idc := None; f_trunc := None; f_sc := false; f_sw := true; f_ri := None; f_out := f |}.
-Example raises_with_output : status (cur_format (set_out (opts_sw None) (Some OPhp)) [40; 97; 115; 41]) = Some IndexError.
+Example returns_with_output : status (cur_format (set_out (opts_sw None) (Some OPhp)) [40; 97; 115; 41]) = None.
 Proof. vm_compute. reflexivity. Qed.
-Example raises_without_output : status (cur_format (set_out (opts_sw None) None) [40; 97; 115; 41]) = Some IndexError.
+Example returns_without_output : cur_format (set_out (opts_sw None) None) [40; 97; 115; 41] = Ok [40; 97; 115; 41]%N.
 Proof. vm_compute. reflexivity. Qed.
 
 (* non-vacuity of php_rhs_denotes:  a "b" <LF> c   ->   "a \"b\" ";\n$sql .= "c";  *)
